@@ -127,12 +127,16 @@ def import_closure(mods):
     return sorted(seen)
 
 
-def forbidden_hits(mods):
+def forbidden_hits(mods, native_ok=()):
+    """native_ok: modules in which `native_decide` is a declared, disclosed use (DESIGN §4)"""
     hits = []
     for m in import_closure(mods):
         src = strip_comments(open(module_path(m)).read())
         for ln, l in enumerate(src.splitlines(), 1):
-            if FORBIDDEN.search(l):
+            mm = FORBIDDEN.search(l)
+            if mm:
+                if m in native_ok and mm.group(1) == "native_decide":
+                    continue
                 hits.append(f"{m}:{ln}: {l.strip()[:120]}")
     return hits
 
@@ -178,7 +182,10 @@ def audit_axioms(prop_id, mods):
     return rc, out, names, axioms
 
 
-def prove(prop_id, mods, extra_targets=("wvdriver",)):
+NATIVE_AXIOMS = {"Lean.ofReduceBool", "Lean.trustCompiler"}
+
+
+def prove(prop_id, mods, extra_targets=("wvdriver",), native_ok=()):
     """Returns dict(ok, build_ok, driver_ok, log, theorems, axioms, bad_axioms, forbidden)."""
     res = dict(ok=False, build_ok=False, driver_ok=False, log="", theorems=[], axioms={}, bad_axioms={}, forbidden=[])
     rc, out = lake(["build"] + list(mods))
@@ -188,13 +195,18 @@ def prove(prop_id, mods, extra_targets=("wvdriver",)):
     res["driver_ok"] = rc2 == 0
     if rc2 != 0:
         res["log"] += "\n--- driver build ---\n" + out2[-3000:]
-    res["forbidden"] = forbidden_hits(list(mods))
+    res["forbidden"] = forbidden_hits(list(mods), native_ok)
     if res["build_ok"]:
         rc3, out3, names, axioms = audit_axioms(prop_id, mods)
         res["theorems"] = names
         res["axioms"] = axioms
         missing = [n for n in names if n not in axioms]
-        bad = {n: [a for a in ax if a not in ALLOWED_AXIOMS] for n, ax in axioms.items()}
+        allowed = ALLOWED_AXIOMS | (NATIVE_AXIOMS if native_ok else set())
+
+        def ok_axiom(a):
+            # Lean 4.33: each `native_decide` adds an axiom `<theorem>._native.native_decide.ax_*`
+            return a in allowed or (bool(native_ok) and re.search(r"\._native\.native_decide\.ax_[0-9_]+$", a) is not None)
+        bad = {n: [a for a in ax if not ok_axiom(a)] for n, ax in axioms.items()}
         res["bad_axioms"] = {n: a for n, a in bad.items() if a}
         if rc3 != 0 or missing:
             res["log"] += "\n--- axiom audit ---\n" + out3[-2000:] + f"\nmissing: {missing}"
@@ -306,7 +318,7 @@ def run_check(mod, tier="quick", seed=0, replay=None):
         log(f"[{pid}] translator failed (cannot import the working tree):\n{err[-2000:]}")
         return 2
     log(f"[{pid}] extract: {summary['machines']} machines, {summary['transitions']} transitions, changed={summary['changed']}")
-    pr = prove(pid, mod.PROP_MODULES)
+    pr = prove(pid, mod.PROP_MODULES, native_ok=tuple(getattr(mod, "NATIVE_DECIDE_MODULES", ())))
     log(f"[{pid}] prove: build_ok={pr['build_ok']} driver_ok={pr['driver_ok']} theorems={len(pr['theorems'])} "
         f"forbidden={len(pr['forbidden'])} bad_axioms={len(pr['bad_axioms'])}")
     if not pr["ok"]:
